@@ -389,23 +389,24 @@ func (ei *resourceInformer) handleWatchEvent(object interface{}, eventType kemty
 			Objects:     []kemtypes.ObjectAndFilterResult{*objFilterRes},
 		}
 
-		// fix race with enableKubeEventCb.
+		// fix race with enableKubeEventCb: check the flag and save the event in the buffer
+		// in one critical section, otherwise the callback can be enabled (and the buffer replayed)
+		// in between and the event stays in the buffer forever.
 		eventCbEnabled := false
 		ei.eventBufLock.Lock()
 		eventCbEnabled = ei.eventCbEnabled
-		ei.eventBufLock.Unlock()
-
-		if eventCbEnabled {
-			// Pass event info to callback.
-			ei.putEvent(kubeEvent)
-		} else {
-			ei.eventBufLock.Lock()
+		if !eventCbEnabled {
 			// Save event in buffer until the callback is enabled.
 			if ei.eventBuf == nil {
 				ei.eventBuf = make([]kemtypes.KubeEvent, 0)
 			}
 			ei.eventBuf = append(ei.eventBuf, kubeEvent)
-			ei.eventBufLock.Unlock()
+		}
+		ei.eventBufLock.Unlock()
+
+		if eventCbEnabled {
+			// Pass event info to callback.
+			ei.putEvent(kubeEvent)
 		}
 	}
 }
